@@ -6,6 +6,12 @@ independent model of CPython 3.12's formatter (Ref*), a staged generator and the
   Soundness  : CPython raises  => a format error is reported        (or a named Dev_ class)
   Precision  : CPython succeeds => nothing is reported outside the documented stricter lints
   ResultType : the inferred type is the type of the actual result.
+Two generators per half: the token-level machines of PercentFormat.tla / StrFormat.tla (every character
+sequence over an alphabet, malformed prefixes included) and the specifier-/field-structured machines of
+PercentFields.tla / StrFields.tla (templates built from items whose FIELDS are enumerated: mapping key, flags,
+width, precision, length modifier, conversion resp. field name, accessor chain, conversion, format spec, with
+arguments drawn around the arity the template asks for).  The structured modules EXTEND the token-level ones:
+same case record, same Impl/Ref operators, same invariants, same trace specifications.
 S->C: every case TLC enumerates (exhaustively up to the replay limit, a seeded sample above it, plus
 TLC -simulate beyond the exhaustive bound) is realised as `reveal_type(<expr>)` inside a function,
 checked by the real visitor, and really evaluated by CPython.  C->S: the recorded observations are
@@ -17,6 +23,7 @@ from __future__ import annotations
 
 import copy
 import random
+import time
 from concurrent.futures import ThreadPoolExecutor
 from typing import Any
 
@@ -26,21 +33,31 @@ LEVEL = "model_checking"
 
 MODULE = {"percent": "PercentFormat", "format": "StrFormat"}
 
-# sensitivity self-tests: (cfg suffix, invariant that must be violated)
+# sensitivity self-tests: (module, cfg suffix, invariant that must be violated)
 SENSITIVITY = {
     "percent": [
-        ("bug1", "Soundness"),  # seeded model bug: "too many arguments" never reported
-        ("bug2", "Soundness"),  # seeded model bug: %s on a bytes template accepts anything
-        ("strict1", "SoundnessStrict"),  # the known MISS deviations are real
-        ("strict2", "PrecisionStrict"),  # the known false reports are real
-        ("strict3", "NoCrashStrict"),  # the internal error is real
+        ("PercentFormat", "bug1", "Soundness"),  # seeded model bug: "too many arguments" never reported
+        ("PercentFormat", "bug2", "Soundness"),  # seeded model bug: %s on a bytes template accepts anything
+        ("PercentFormat", "strict1", "SoundnessStrict"),  # the known MISS deviations are real
+        ("PercentFormat", "strict2", "PrecisionStrict"),  # the known false reports are real
+        ("PercentFormat", "strict3", "NoCrashStrict"),  # the internal error is real
+        # specifier-structured slices.  Seeded model bug: ONE star slot for a specifier with `*` width AND `*`
+        # precision -- the arity is then off by one in both directions, so both clauses must reject it
+        ("PercentFields", "bugstar1", "Soundness"),  # '%*.*d' % (1, 1) raises, the bugged model is silent
+        ("PercentFields", "bugstar2", "Precision"),  # '%*.*d' % (1, 1, 1) is fine, the bugged model reports
+        ("PercentFields", "strict1", "SoundnessStrict"),  # the deviation classes are reached by the field slices
+        ("PercentFields", "strict2", "PrecisionStrict"),
     ],
     "format": [
-        ("bug1", "Soundness"),  # seeded model bug: out-of-range numbered argument not reported
-        ("bug2", "Soundness"),  # seeded model bug: single '}' accepted
-        ("strict1", "SoundnessStrict"),
+        ("StrFormat", "bug1", "Soundness"),  # seeded model bug: out-of-range numbered argument not reported
+        ("StrFormat", "bug2", "Soundness"),  # seeded model bug: single '}' accepted
+        ("StrFormat", "strict1", "SoundnessStrict"),
+        ("StrFields", "bug1", "Soundness"),  # the same seeded bug must be rejected by the field slices
+        ("StrFields", "strict1", "SoundnessStrict"),
     ],
 }
+
+FIELDS = {"percent": "PercentFields", "format": "StrFields"}
 
 # every observation class that must occur (vacuity control measured on the real observations)
 REQUIRED_CLASSES = ["raises+reported", "ok+silent", "ok+lint"]
@@ -61,9 +78,13 @@ def _class_of(o: dict) -> str:
     return "ok+lint" if o["pz"]["first"] in ("nospec", "pctopt", "mix", "unused-pos", "unused-kw") else "ok+other"
 
 
-def judge(check: core.Check, which: str, cases: list[dict], label: str) -> dict[Any, list[str]]:
+def judge(check: core.Check, which: str, cases: list[dict], label: Any) -> dict[Any, list[str]]:
+    """`label`: the source of the cases (one string, or one string per case)."""
     mod = MODULE[which]
+    labels = label if isinstance(label, list) else [label] * len(cases)
     obs = fmt_common.observe(cases, which)
+    if [o["tid"] for o in obs] != list(range(len(cases))):
+        raise core.MachineryError("observations are not in case order")
     verdicts, stats = core.adjudicate(mod + "Trace", mod + "Trace.cfg", obs, batch=15000, parallel=6, timeout=3000)
     check.add_trace_stats(stats)
     check.evals(len(obs))
@@ -75,7 +96,8 @@ def judge(check: core.Check, which: str, cases: list[dict], label: str) -> dict[
         cls = _class_of(o)
         classes[cls] = classes.get(cls, 0) + 1
         for v in verdicts.get(o["tid"], []):
-            payload = {"which": which, "case": case, "expr": o["expr"], "cpy": o["cpy"], "pz": o["pz"], "source": label}
+            payload = {"which": which, "case": case, "expr": o["expr"], "cpy": o["cpy"], "pz": o["pz"],
+                       "source": labels[o["tid"]]}
             if v.startswith("oracle:"):
                 raise core.MachineryError(
                     f"{mod}: the CPython model disagrees with real CPython on {o['expr']}: {v} (real: {o['cpy']})"
@@ -88,9 +110,27 @@ def judge(check: core.Check, which: str, cases: list[dict], label: str) -> dict[
                 check.drift({"verdict": v, **payload})
             else:
                 raise core.MachineryError(f"unknown verdict {v!r}")
+    if which == "percent":
+        _arity_classes(check, obs, labels)
     for o in obs[:: max(1, len(obs) // 2)][:2]:
-        check.sample({"source": label, "expr": o["expr"], "case": o["case"], "cpy": o["cpy"], "pz": o["pz"]})
+        check.sample({"source": labels[o["tid"]], "expr": o["expr"], "case": o["case"], "cpy": o["cpy"], "pz": o["pz"]})
     return verdicts
+
+
+def _arity_classes(check: core.Check, obs: list[dict], labels: list[str]) -> None:
+    """Vacuity statistics of the specifier-structured slices (evidence only, nothing is judged here): how often
+    a single-specifier template with s star fields (0, 1, 2) met a tuple of length d = len - (s + 1)."""
+    classes = check.cov.setdefault("field_arity_classes", {})
+    for o in obs:
+        if "PercentFields" not in labels[o["tid"]]:
+            continue
+        case = o["case"]
+        t = case["t"]
+        if case["args"]["shape"] != "tuple" or t.count("%") != 1 or "(" in t:
+            continue
+        d = len(case["args"]["items"]) - (t.count("*") + 1)
+        key = f"stars={t.count('*')},len-need={d:+d},{'raises' if o['cpy']['exc'] != 'ok' else 'ok'}"
+        classes[key] = classes.get(key, 0) + 1
 
 
 def _uniq(cases: list[dict]) -> list[dict]:
@@ -138,6 +178,42 @@ def selftest_binding(check: core.Check) -> None:
         if not ok:
             raise core.MachineryError(f"binding self-test failed for {mod}: {got}")
         report.append(f"{mod}: {o['expr']} untouched -> ok; first:=none -> {got[1]}; cpy:=ok -> {got[2][:1]}; extra error -> {got[3]}")
+    # a named deviation class excuses an observation only when the Impl model reproduces the real report: a
+    # silence the model does not predict must be judged a violation even inside a known class
+    probes2 = {
+        # CPython: KeyError('k'); pyanalyze: 'cannot combine ...' (mix).  With the report erased the case is in
+        # the class percent-non-str-dict-key by its shape, but the modelled mechanism predicts "mix"
+        "percent": {"kind": "str", "t": list("%(k)*d"), "args": {"shape": "dict", "items": ["i1"],
+                                                                   "keys": [{"ty": "int", "chars": ["1"]}]}},
+        # CPython: AttributeError; pyanalyze: numbered argument 1 out of range.  Erased -> shape of
+        # format-field-path-unchecked, but the model predicts "index-range"
+        "format": {"t": list("{0.foo}{1}"), "pos": ["i1"], "kw": []},
+    }
+    known = {
+        "percent": ({"kind": "str", "t": ["%", "x"], "args": {"shape": "scalar", "items": ["f15"], "keys": []}},
+                    "dev:percent-x-float"),
+        "format": ({"t": list("{0.foo}"), "pos": ["i1"], "kw": []}, "dev:format-field-path-unchecked"),
+    }
+    for which, case in probes2.items():
+        mod = MODULE[which]
+        o, kn = fmt_common.observe([case, known[which][0]], which)
+        if o["cpy"]["exc"] == "ok" or o["pz"]["first"] == "none":
+            raise core.MachineryError(f"dev self-test: probe {o['expr']} is not a reported failure")
+        a = copy.deepcopy(o)
+        a["tid"], a["pz"]["first"] = 1, "none"
+        o["tid"], kn["tid"] = 0, 2
+        verdicts, _ = core.adjudicate(mod + "Trace", mod + "Trace.cfg", [o, a, kn])
+        got = {k: verdicts.get(k, []) for k in range(3)}
+        ok = (
+            got[0] == []
+            and any(v.startswith("viol:ReportsWhenRaises") for v in got[1])
+            and not any(v.startswith("dev:") for v in got[1])
+            and got[2] == [known[which][1]]
+        )
+        if not ok:
+            raise core.MachineryError(f"dev-class self-test failed for {mod}: {got}")
+        report.append(f"{mod}: {o['expr']} first:=none (shape of a known class, not what the model predicts) -> {got[1]}; "
+                      f"{kn['expr']} untouched -> {got[2]}")
     check.cov["binding_selftest"] = report
 
 
@@ -157,6 +233,14 @@ def run(check: core.Check) -> None:
         "and the *Strict / seeded-bug configurations instead",
     ]
 
+    t_phase = time.time()
+    phases: dict[str, float] = check.cov.setdefault("phase_wall_s", {})
+
+    def phase(name: str) -> None:
+        nonlocal t_phase
+        phases[name] = round(time.time() - t_phase, 1)
+        t_phase = time.time()
+
     jobs: dict[str, dict] = {}
 
     def job(name: str, module: str, cfg: str, **kw: Any) -> None:
@@ -168,11 +252,30 @@ def run(check: core.Check) -> None:
         else:
             job(f"{which}:exhaustive", mod, f"{mod}.thorough.cfg", workers=8)
             job(f"{which}:emit", mod + "Emit", f"{mod}.emit4.cfg", workers=6)
-        for suffix, _inv in SENSITIVITY[which]:
-            job(f"{which}:sens:{suffix}", mod, f"{mod}.{suffix}.cfg", workers=2)
+        for smod, suffix, _inv in SENSITIVITY[which]:
+            job(f"{which}:sens:{smod}.{suffix}", smod, f"{smod}.{suffix}.cfg", workers=2)
         num = 3000 if quick else 30000
         job(f"{which}:sim", mod + "Emit", f"{mod}.sim.cfg", workers=2, simulate=f"num={num}", depth=40,
             seed=check.seed + (11 if which == "percent" else 12))
+        # specifier-/field-structured slices: one item over the representative menus and two items over the
+        # small menus (exhaustive, every case replayed), random walks over the complete field menus with two
+        # items (simulation), and in the thorough tier one item over the COMPLETE field menus / two items over
+        # the medium menus (exhaustive)
+        fmod = FIELDS[which]
+        job(f"{which}:fields", fmod + "Emit", f"{fmod}.quick.cfg", workers=4)
+        job(f"{which}:fields2", fmod + "Emit", f"{fmod}.two.cfg", workers=4)
+        fnum = (1000 if which == "percent" else 2500) if quick else num  # walks per worker
+        job(f"{which}:fieldsim", fmod + "Emit", f"{fmod}.sim.cfg", workers=2, simulate=f"num={fnum}", depth=60,
+            seed=check.seed + (13 if which == "percent" else 14))
+        if not quick:
+            job(f"{which}:fields22", fmod + "Emit", f"{fmod}.two2.cfg", workers=8)
+    # keyed specifiers x dicts of up to two entries (both spellings of a key, second key, keyed + unkeyed)
+    job("percent:fieldkeys", "PercentFieldsEmit", "PercentFields.keys2.cfg", workers=2)
+    # every conversion character x every length modifier x every argument class
+    job("percent:fieldconvs", "PercentFieldsEmit", "PercentFields.convs.cfg", workers=2)
+    if not quick:
+        job("percent:fieldsfull", "PercentFields", "PercentFields.full.cfg", workers=8)
+        job("format:fieldsfull", "StrFieldsEmit", "StrFields.full.cfg", workers=8)
     if not quick:
         job("percent:full", "PercentFormat", "PercentFormat.full.cfg", workers=8)
         job("format:nest", "StrFormatEmit", "StrFormat.nest.cfg", workers=6)
@@ -187,9 +290,10 @@ def run(check: core.Check) -> None:
         return core.run_tlc(j["module"], j["cfg"], timeout=3400, heap="6g", **j["kw"])
 
     order = sorted(jobs, key=lambda n: (":sens:" in n, n))  # heavy jobs first
-    with ThreadPoolExecutor(3) as ex:
+    with ThreadPoolExecutor(4) as ex:
         results = dict(zip(order, ex.map(run_job, order)))
 
+    phase("tlc-model-checking")
     # 1. the design: TLC proves the invariants on the model inside the bounds
     for name in order:
         res = results[name]
@@ -200,16 +304,17 @@ def run(check: core.Check) -> None:
     # 2. sensitivity: seeded model bugs and the strict invariants must be rejected
     sens = []
     for which in MODULE:
-        for suffix, inv in SENSITIVITY[which]:
-            res = results[f"{which}:sens:{suffix}"]
+        for smod, suffix, inv in SENSITIVITY[which]:
+            res = results[f"{which}:sens:{smod}.{suffix}"]
             if res.violated != inv:
                 raise core.MachineryError(
-                    f"sensitivity self-test failed: {MODULE[which]}.{suffix}.cfg did not violate {inv}: {res.error}"
+                    f"sensitivity self-test failed: {smod}.{suffix}.cfg did not violate {inv}: {res.error}"
                 )
-            sens.append(f"{MODULE[which]}.{suffix}.cfg violates {inv}")
+            sens.append(f"{smod}.{suffix}.cfg violates {inv}")
     check.cov["sensitivity"] = sens
     # 3. binding self-test (corrupted observations must be flagged by TLC)
     selftest_binding(check)
+    phase("selftests")
     # 4. S->C replay of TLC's cases through the real visitor and real CPython, adjudicated by TLC
     limit = 12000 if quick else 100000
     exhaustive = True
@@ -244,22 +349,71 @@ def run(check: core.Check) -> None:
         keys, ex_all = _sample(rnd, keys, 30000)
         exhaustive = exhaustive and ex_all
         judge(check, "percent", keys, "tlc-exhaustive:" + jobs["percent:keys"]["cfg"])
-    # 5. beyond the exhaustive bound: TLC random simulation over the full alphabets
+    phase("replay-token-level")
+    # 4b. the specifier-/field-structured slices: all cases of the exhaustive slices in one replay per half
     for which in MODULE:
-        sim = _uniq(core.emitted_json(results[f"{which}:sim"]))
-        check.cov.setdefault("simulated_cases", {})[which] = len(sim)
-        if len(sim) < 200:
-            raise core.MachineryError(f"{which}: simulation produced only {len(sim)} distinct cases")
-        sim, _ = _sample(rnd, sim, 4000 if quick else 30000)
-        judge(check, which, sim, "tlc-simulate")
+        fmod = FIELDS[which]
+        cases: list[dict] = []
+        labels: list[str] = []
+        for src, lim in [(f"{which}:fields", 20000), (f"{which}:fields2", 20000)] + (
+            [("percent:fieldkeys", 20000), ("percent:fieldconvs", 20000)] if which == "percent" else []
+        ) + (
+            [] if quick else [(f"{which}:fields22", 40000)] + ([("format:fieldsfull", 40000)] if which == "format" else [])
+        ):
+            got = core.emitted_json(results[src])
+            results[src].stdout = ""
+            if not got:
+                raise core.MachineryError(f"{src}: TLC emitted no cases")
+            model_cases[src + ":" + jobs[src]["cfg"]] = len(got)
+            got, ex_all = _sample(rnd, got, lim)
+            exhaustive = exhaustive and ex_all
+            cases += got
+            labels += ["tlc-exhaustive:" + jobs[src]["cfg"]] * len(got)
+        judge(check, which, cases, labels)
+        del cases
+    phase("replay-structured")
+    # 5. beyond the exhaustive bound: TLC random simulation over the full alphabets / the complete field menus
+    for which in MODULE:
+        cases, labels = [], []
+        for src, lim in [(f"{which}:sim", 4000 if quick else 30000), (f"{which}:fieldsim", 3000 if quick else 30000)]:
+            sim = _uniq(core.emitted_json(results[src]))
+            results[src].stdout = ""
+            check.cov.setdefault("simulated_cases", {})[src] = len(sim)
+            if len(sim) < 200:
+                raise core.MachineryError(f"{src}: simulation produced only {len(sim)} distinct cases")
+            sim, _ = _sample(rnd, sim, lim)
+            cases += sim
+            labels += ["tlc-simulate:" + jobs[src]["cfg"]] * len(sim)
+        judge(check, which, cases, labels)
+    phase("replay-simulated")
+    # vacuity of the structured slices: every (number of star fields) x (tuple length - required) class occurred
+    arity = check.cov.get("field_arity_classes", {})
+    for stars in (0, 1, 2):
+        for d in (-1, 0, 1):
+            if not any(k.startswith(f"stars={stars},len-need={d:+d},") for k in arity):
+                raise core.MachineryError(f"PercentFields: arity class stars={stars}, len-need={d:+d} never replayed")
+    if not any(k == "stars=2,len-need=+0,ok" for k in arity):
+        raise core.MachineryError("PercentFields: no successful '%*.*<conv>' % 3-tuple was replayed")
     check.cov["exhaustive"] = exhaustive
     check.cov["model_cases"] = model_cases
     check.cov["replay_limit_per_source"] = limit
     check.cov["rule"] = (
-        "cases = states with stage=done of PercentFormat.tla (kind x template over the token alphabet x literal "
-        "scalar/tuple/dict argument) and StrFormat.tla (template x positional x keyword arguments); replayed "
-        "exhaustively up to the replay limit, seeded uniform sample above it, plus TLC -simulate over the full "
-        "alphabets; non-trivial = the template contains '%' (resp. '{' or '}'), counted distinct by canonical JSON"
+        "cases = states with stage=done of (a) PercentFormat.tla (kind x template over the token alphabet x literal "
+        "scalar/tuple/dict argument) and StrFormat.tla (template x positional x keyword arguments), templates of "
+        "<= 3 (quick) / 4 (thorough) tokens; (b) PercentFields.tla: templates of 1-2 items (literal, %%, specifier "
+        "= key x flags x width{none,digits,*} x precision{none,.,.digits,.*} x length modifier x conversion) x "
+        "scalars / tuples of length required-1, required, required+1 with fitting and misfitting star values / "
+        "dicts; StrFields.tla: templates of 1-2 items (literal, {{, }}, field = name{auto,0,1,a,b} x accessor chain "
+        "x conversion x format spec{none, simple, nested field, malformed}) x positional arguments (required-1, "
+        "required, required+1) x keyword subsets.  quick: (b) with one item over representative menus "
+        "(PercentFields/StrFields.quick.cfg: both keys x {no flag, -} x 3 widths x 4 precisions x {d,x,c,s,%}), two "
+        "items over small menus (.two.cfg), every conversion x every length modifier (PercentFields.convs.cfg) and "
+        "keyed specifiers x dicts of <= 2 entries (PercentFields.keys2.cfg), every case replayed; "
+        "thorough adds one item over the COMPLETE field menus (PercentFields.full.cfg: 3 keys x 16 flag sets x 3 "
+        "widths x 4 precisions x 4 length modifiers x 19 conversions, model-checked; StrFields.full.cfg replayed) "
+        "and two items over medium menus (.two2.cfg).  Replayed exhaustively up to the replay limit, seeded uniform "
+        "sample above it, plus TLC -simulate over the full token alphabets and over the complete field menus with "
+        "two items; non-trivial = the template contains '%' (resp. '{' or '}'), counted distinct by canonical JSON"
     )
     # vacuity: every observation class must have occurred in both halves
     for which in MODULE:
